@@ -168,7 +168,8 @@ def extract(config="default", repo=None, target=None, quiet=False):
         p = subprocess.run(cmd, cwd=repo, env=env, stdout=subprocess.PIPE, stderr=subprocess.STDOUT, text=True)
         if p.returncode != 0:
             sys.stderr.write(p.stdout[-6000:])
-            raise SystemExit("swimverify: fact extraction failed (cargo check exit %d): the tree does not build" % p.returncode)
+            sys.stderr.write("swimverify: fact extraction failed (cargo check exit %d): the tree does not build\n" % p.returncode)
+            raise SystemExit(2)
         missing = [c for c in cfg["expect"] if not os.path.isfile(os.path.join(out, c + ".index.json"))]
         if missing:
             sys.stderr.write(p.stdout[-3000:])
